@@ -77,10 +77,17 @@ Fixpoint segs_of (m : mat) (cur start : qpt) (g : list gcmd) : list seg :=
 Definition zero_line (s : seg) : bool := (skind s =? 1)%Z && ptclose (sp0 s) (sp1 s).
 Definition nz_segs (m : mat) (g : list gcmd) : list seg := filter (fun s => negb (zero_line s)) (segs_of m (0, 0) (0, 0) g).
 
+(** the same ellipse has several (rx, ry, rotation) descriptions: canonical form rx >= ry, rotation in [0,180), 0 for circles *)
+Definition arc_norm (a : Q * Q * Q * bool * bool) : Q * Q * Q * bool * bool :=
+  let '(rx, ry, rot, l, s) := a in
+  let '(rx, ry, rot) := if Qeq_bool rx ry then (rx, ry, 0) else if Qltb rx ry then (ry, rx, rot + 90) else (rx, ry, rot) in
+  let rot := if Qle_bool 180 rot then rot - 180 else if Qltb rot 0 then rot + 180 else rot in
+  (rx, ry, rot, l, s).
+
 Definition seg_close (a b : seg) : bool :=
   (skind a =? skind b)%Z && ptclose (sp0 a) (sp0 b) && ptclose (sp1 a) (sp1 b) &&
   ptclose (sc1 a) (sc1 b) && ptclose (sc2 a) (sc2 b) &&
-  let '(rx, ry, rot, l, s) := sarc a in let '(rx', ry', rot', l', s') := sarc b in
+  let '(rx, ry, rot, l, s) := arc_norm (sarc a) in let '(rx', ry', rot', l', s') := arc_norm (sarc b) in
   qclose rx rx' && qclose ry ry' && qclose rot rot' && Bool.eqb l l' && Bool.eqb s s'.
 
 Definition rotl {A} (k : nat) (l : list A) : list A := skipn k l ++ firstn k l.
